@@ -40,17 +40,40 @@ var (
 func objUUID(i int) uuid.UUID { return uuid.NewV5(objSpace, strconv.Itoa(i)) }
 func subUUID(i int) uuid.UUID { return uuid.NewV5(subSpace, strconv.Itoa(i)) }
 
-// faultDeps wraps the registry so that the k-th storage call of a check fails.
+// faultDeps wraps the registry so that the k-th storage call of a check fails. The
+// engine built on it may live as long as the environment (as the registry's engine does
+// in a server); what varies per check - the call counter and the fault position - is
+// the runState carried by the request context, so that a goroutine left over from an
+// earlier check keeps counting into its own check.
 type faultDeps struct {
 	*driver.RegistryDefault
 	calls      *int64
 	failAt     int64
 	persistent bool
 	kind       int // which error the failing call returns (faultErrs)
+	pageSize   int // page size forced on GetRelationTuples (0 or 100: the persister's default)
 	// when set, the storage the engine uses instead of the registry's (C06: a persister
 	// whose network is selected per request through the contextualizer)
 	baseMgr  relationtuple.Manager
 	baseTrav relationtuple.Traverser
+}
+
+// runState is the per-check part of faultDeps when the engine is shared between checks.
+type runState struct {
+	calls      *int64
+	failAt     int64
+	persistent bool
+	kind       int
+	pageSize   int
+}
+
+type runStateKey struct{}
+
+func (d *faultDeps) state(ctx context.Context) runState {
+	if st, ok := ctx.Value(runStateKey{}).(*runState); ok {
+		return *st
+	}
+	return runState{calls: d.calls, failAt: d.failAt, persistent: d.persistent, kind: d.kind, pageSize: d.pageSize}
 }
 
 // faultErrs are the injected storage failures: a generic connection error, a
@@ -68,13 +91,14 @@ var faultErrs = []error{
 // the check ends quickly; the case is then dropped by the caller (calls > budget).
 const callBudget = 4000
 
-func (d *faultDeps) hit() error {
-	n := atomic.AddInt64(d.calls, 1)
+func (d *faultDeps) hit(ctx context.Context) error {
+	st := d.state(ctx)
+	n := atomic.AddInt64(st.calls, 1)
 	if n > callBudget {
 		return errFault
 	}
-	if d.failAt != 0 && (n == d.failAt || (d.persistent && n > d.failAt)) {
-		return faultErrs[d.kind%len(faultErrs)]
+	if st.failAt != 0 && (n == st.failAt || (st.persistent && n > st.failAt)) {
+		return faultErrs[st.kind%len(faultErrs)]
 	}
 	return nil
 }
@@ -85,14 +109,17 @@ type faultManager struct {
 }
 
 func (m *faultManager) GetRelationTuples(ctx context.Context, q *relationtuple.RelationQuery, o ...x.PaginationOptionSetter) ([]*relationtuple.RelationTuple, string, error) {
-	if err := m.d.hit(); err != nil {
+	if err := m.d.hit(ctx); err != nil {
 		return nil, "", err
+	}
+	if ps := m.d.state(ctx).pageSize; ps > 0 && ps != 100 {
+		o = append(o, x.WithSize(ps))
 	}
 	return m.Manager.GetRelationTuples(ctx, q, o...)
 }
 
 func (m *faultManager) ExistsRelationTuples(ctx context.Context, q *relationtuple.RelationQuery) (bool, error) {
-	if err := m.d.hit(); err != nil {
+	if err := m.d.hit(ctx); err != nil {
 		return false, err
 	}
 	return m.Manager.ExistsRelationTuples(ctx, q)
@@ -104,14 +131,14 @@ type faultTraverser struct {
 }
 
 func (t *faultTraverser) TraverseSubjectSetExpansion(ctx context.Context, tuple *relationtuple.RelationTuple) ([]*relationtuple.TraversalResult, error) {
-	if err := t.d.hit(); err != nil {
+	if err := t.d.hit(ctx); err != nil {
 		return nil, err
 	}
 	return t.Traverser.TraverseSubjectSetExpansion(ctx, tuple)
 }
 
 func (t *faultTraverser) TraverseSubjectSetRewrite(ctx context.Context, tuple *relationtuple.RelationTuple, css []string) ([]*relationtuple.TraversalResult, error) {
-	if err := t.d.hit(); err != nil {
+	if err := t.d.hit(ctx); err != nil {
 		return nil, err
 	}
 	return t.Traverser.TraverseSubjectSetRewrite(ctx, tuple, css)
@@ -143,6 +170,7 @@ type engEnv struct {
 	// last limits set (Config.Set reloads the whole configuration, ~10 ms)
 	lastDepth, lastWidth int
 	other                *ksql.Persister // one persister serving two networks selected by the context (C06)
+	eng                  *check.Engine   // the engine shared by all checks of this environment
 	ctxB                 context.Context
 }
 
@@ -417,16 +445,23 @@ func (e *engEnv) runCheck(c *EngCase, det bool) (res string, calls int64) {
 	}
 	defer func() { checkgroup.DefaultFactory = old }()
 	var n int64
-	deps := &faultDeps{RegistryDefault: e.reg, calls: &n, failAt: int64(c.FaultAt), persistent: c.FaultPersis, kind: c.FaultKind}
-	if e.other != nil {
-		deps.baseMgr, deps.baseTrav = e.other, ksql.NewTraverser(e.other)
+	// ONE engine for the life of the environment, as in a server (the registry keeps its
+	// permission engine): anything the engine remembers between checks is exercised
+	if e.eng == nil {
+		var zero int64
+		deps := &faultDeps{RegistryDefault: e.reg, calls: &zero}
+		if e.other != nil {
+			deps.baseMgr, deps.baseTrav = e.other, ksql.NewTraverser(e.other)
+		}
+		e.eng = check.NewEngine(deps)
 	}
-	eng := check.NewEngine(deps)
+	ctx := context.WithValue(e.ctx, runStateKey{}, &runState{calls: &n, failAt: int64(c.FaultAt), persistent: c.FaultPersis,
+		kind: c.FaultKind, pageSize: c.PageSize})
 	defer func() {
 		if r := recover(); r != nil {
 			res = fmt.Sprintf("panic:%v", r)
 		}
 	}()
-	r := eng.CheckRelationTuple(e.ctx, c.Query.internal(), c.RDepth)
+	r := e.eng.CheckRelationTuple(ctx, c.Query.internal(), c.RDepth)
 	return membStr(r.Membership) + "/" + errKind(r.Err), atomic.LoadInt64(&n)
 }
